@@ -68,7 +68,101 @@ let handle_seq (first : string list) (rest : string list) : unit =
        | _ -> print_endline "?")) rest
 
 (*CONC-BEGIN*)
-let handle_conc (_ : string list) : unit = print_endline "F nomodel"
+let sc_params = { mo_w_load_r = SeqCst; mo_w_store_wrap = SeqCst; mo_w_store_commit = SeqCst; mo_r_load_w = SeqCst;
+                  mo_r_store_wrap = SeqCst; mo_r_store_move = SeqCst; mo_lock_tas = SeqCst; mo_lock_clear = SeqCst }
+let mo_of_string = function
+  | "Rlx" -> Rlx | "Con" -> Con | "Acq" -> Acq | "Rel" -> Rel | "AcqRel" -> AcqRel | "SeqCst" -> SeqCst | _ -> MoNone
+let params_of = function
+  | [a; b; c; d; e; f; g; h] ->
+    { mo_w_load_r = mo_of_string a; mo_w_store_wrap = mo_of_string b; mo_w_store_commit = mo_of_string c;
+      mo_r_load_w = mo_of_string d; mo_r_store_wrap = mo_of_string e; mo_r_store_move = mo_of_string f;
+      mo_lock_tas = mo_of_string g; mo_lock_clear = mo_of_string h }
+  | _ -> sc_params
+let cell_id = function "wcur" -> 0 | "rcur" -> 1 | "wlock" -> 2 | "ridle" -> 3 | "wretry" -> 4 | "-" -> 0 | _ -> 99
+let choice_of _ _ _ _ = 0
+let note_of text =
+  match words text with
+  | [k; v] ->
+    let code = (match k with "sent" -> 1 | "full" -> 2 | "drop" -> 3 | "wdone" -> 4 | "glen" -> 5 | "goff" -> 6
+                           | "gtag" -> 7 | "idle" -> 8 | "rdone" -> 9 | _ -> 99) in
+    (code, (try int_of_string v with _ -> 0))
+  | _ -> (99, 0)
+let rec upto n = if n <= 0 then [] else upto (n - 1) @ [n - 1]
+
+let parse_conc (cfg : string list) =
+  let n = ref 8 and locked = ref false and kill = ref None and tries = ref 1 and scripts = ref [] in
+  let prm = ref sc_params and explore = ref None in
+  List.iter (fun l -> match words l with
+    | "conc" :: a :: rest ->
+      n := int_of_string a;
+      (match rest with
+       | b :: c :: d :: _ -> locked := (b = "1"); (let k = int_of_string c in kill := if k < 0 then None else Some (nat_of_int k));
+         tries := max 1 (int_of_string d)
+       | _ -> ())
+    | "writer" :: ms ->
+      let sc = List.filter_map (fun m -> match String.split_on_char ':' m with
+        | [a; b] -> Some (z_of_int (int_of_string a), z_of_int (int_of_string b)) | _ -> None) ms in
+      scripts := !scripts @ [sc]
+    | "params" :: ps -> prm := params_of ps
+    | ["explore"; sd; runs] -> explore := Some (int_of_string sd, int_of_string runs)
+    | _ -> ()) cfg;
+  (cinit (z_of_int !n) !locked (nat_of_int !tries) !kill !scripts, List.length !scripts, !prm, !explore)
+
+(* random walks of the MODEL under the memory orders extracted from the code, looking for a ghost
+   monitor failure (a plain read of a data line not covered by the reader's view, an overlap, a
+   delivery that is not the next committed message): used when the parameter obligation broke *)
+let bad_state (st : csys) : string option =
+  if int_of_nat st.c_uncov > 0 then Some "the reader reads a data line (header or payload) that its view does not cover: the writer's plain writes are not ordered before the read (stale header / payload possible)"
+  else if int_of_nat st.c_overlap > 0 then Some "the writer stores into a line of a committed unread message"
+  else None
+let explore_model (st0 : csys) (nthreads : int) (p : params) (seed : int) (runs : int) : unit =
+  Random.init seed;
+  let found = ref false and r = ref 0 in
+  while not !found && !r < runs do
+    incr r;
+    let st = ref st0 and sched = ref [] and k = ref 0 in
+    while not !found && !k < 600 do
+      incr k;
+      let t = Random.int nthreads in
+      (match cstep p !st (nat_of_int t) O with
+       | Some (s', _) -> st := s'; sched := t :: !sched
+       | None -> ());
+      (match bad_state !st with
+       | Some why ->
+         found := true;
+         Printf.printf "FOUND %s\n" why;
+         Printf.printf "modelsched %s\n" (String.concat " " (List.rev_map string_of_int !sched))
+       | None -> ())
+    done
+  done;
+  if not !found then print_endline "NOTFOUND"
+
+let handle_conc (lines : string list) : unit =
+  let rec split acc = function
+    | "TRACE" :: rest -> (List.rev acc, rest)
+    | x :: rest -> split (x :: acc) rest
+    | [] -> (List.rev acc, []) in
+  let (cfg, trace) = split [] lines in
+  let (st0, nw, prm, explore) = parse_conc cfg in
+  match explore with
+  | Some (sd, runs) -> explore_model st0 (nw + 1) prm sd runs
+  | None ->
+    if nw <= 0 then print_endline "F badcase" else begin
+      let step = cstep prm in
+      let none_enabled st = List.for_all (fun t -> step st (nat_of_int t) O = None) (upto (nw + 1)) in
+      let (st, ok) = accept_trace step st0 cell_id choice_of note_of none_enabled trace in
+      if ok then begin
+        let bad = List.length (List.filter (fun ((_, _), tag) -> int_of_z tag < 0) st.c_delivered) in
+        Printf.printf "F got=%d bad=%d w=%s r=%s\n" (List.length st.c_delivered)
+          bad (string_of_z st.c_w) (string_of_z st.c_r);
+        (* the model's own ghost monitors must be quiet on an accepted trace *)
+        if int_of_nat st.c_overlap > 0 then print_endline "M overlap";
+        if int_of_nat st.c_uncov > 0 then print_endline "M uncovered-read (the reader's view does not cover a line it read under the extracted memory orders)";
+        let rec is_prefix a b = match a, b with
+          | [], _ -> true | x :: a', y :: b' -> x = y && is_prefix a' b' | _ -> false in
+        if not (is_prefix st.c_delivered st.c_committed) then print_endline "M delivered-not-prefix-of-committed"
+      end
+    end
 (*CONC-END*)
 
 let handle (lines : string list) : unit =
